@@ -278,6 +278,15 @@ fn mini_histories(rep: &Report, prop: &str, b: &Bench, help: &Tree, src: &[u8]) 
             }
             _ => {
                 if !fresh_ok {
+                    // --needed succeeds exactly when a normal build does
+                    reset_tree(b, help, src);
+                    let r = b.run_no_reset(Mode::InMemoryBuild, true, tn);
+                    rep.tv(1);
+                    rep.tr(1);
+                    rep.add("failing_sources_compared_with_needed", 1);
+                    if r.v == V::Ok {
+                        rep.violate("needed-verdict", format!("source {:?} tn={tn}: a normal build fails ({}) but --needed succeeds", show(src), fresh.v.kind()), rj(prop, src, "failing"));
+                    }
                     return;
                 }
                 rep.add("unchanged_rebuild_sources", 1);
